@@ -285,28 +285,34 @@ Definition bump_parent (m : mdib) (t : tx) (p : H) : mdib * tx :=
   end.
 
 (* one entry of descriptor_updates; [cr up de] = handles created / updated / deleted by this transaction *)
-Definition process_item (cr up de : list H) (mt : mdib * tx) (e : H * option descr) : mdib * tx :=
-  let '(m, t) := mt in
+(* _increment_parent_descriptor_version is skipped for a parent that this transaction has already incremented
+   (proc.descr_updated already holds it): [bumped] *)
+Definition process_item (cr up de : list H) (mtb : mdib * tx * list H) (e : H * option descr) : mdib * tx * list H :=
+  let '(m, t, bumped) := mtb in
   let h := fst e in
   match snd e, descrs m h with
   | Some d, None =>                                         (* create *)
       let m1 := set_descr m h (Some d) in
-      let '(m2, t2) :=
+      let '(m2, t2, b2) :=
         match d_parent d with
-        | Some p => if memz p cr || memz p up then (m1, t) else bump_parent m1 t p
-        | None => (m1, t)
+        | Some p => if memz p cr || memz p up || memz p bumped then (m1, t, bumped)
+                    else let '(mb, tb) := bump_parent m1 t p in
+                         (mb, tb, match descrs m1 p with Some _ => p :: bumped | None => bumped end)
+        | None => (m1, t, bumped)
         end in
-      (m2, upd_corr_state m2 t2 h (d_ver d) (d_kind d))
+      (m2, upd_corr_state m2 t2 h (d_ver d) (d_kind d), b2)
   | None, Some o =>                                         (* delete the whole subtree *)
       let m1 := fold_left rm_one (subtree m h) m in
       match d_parent o with
-      | Some p => if memz p de || memz p up then (m1, t) else bump_parent m1 t p
-      | None => (m1, t)
+      | Some p => if memz p de || memz p up || memz p bumped then (m1, t, bumped)
+                  else let '(mb, tb) := bump_parent m1 t p in
+                       (mb, tb, match descrs m1 p with Some _ => p :: bumped | None => bumped end)
+      | None => (m1, t, bumped)
       end
   | Some d, Some _ =>                                       (* update in place *)
       let m1 := set_descr m h (Some d) in
-      (m1, upd_corr_state m1 t h (d_ver d) (d_kind d))
-  | None, None => (m, t)
+      (m1, upd_corr_state m1 t h (d_ver d) (d_kind d), h :: bumped)
+  | None, None => (m, t, bumped)
   end.
 
 Definition commit_descr (m : mdib) (t : tx) : mdib :=
@@ -317,7 +323,7 @@ Definition commit_descr (m : mdib) (t : tx) : mdib :=
       let cr := map fst (filter (is_create m) (t_d t)) in
       let up := map fst (filter (is_update m) (t_d t)) in
       let de := map fst (filter (is_delete m) (t_d t)) in
-      let '(m1, t1) := fold_left (process_item cr up de) (t_d t) (m0, t) in
+      let '(m1, t1, _) := fold_left (process_item cr up de) (t_d t) (m0, t, []) in
       handle_state_updates m1 t1
   end.
 
